@@ -39,7 +39,12 @@ type Cmd struct {
 	Status int    `json:"status"`
 	Shape  int    `json:"shape"`
 	Sleep  bool   `json:"sleep,omitempty"`
+	// Lead: what the command text starts with: 0 nothing, 1 a comment line, 2 an empty line, 3 blanks,
+	// 4 a line that ends in a comment (the command is a small script; all of it runs)
+	Lead int `json:"lead,omitempty"`
 }
+
+var leads = []string{"", "# note: a comment line first\n", "\n", "   ", "true # a trailing comment\n"}
 
 // Case is one generated task and how it is run.
 type Case struct {
@@ -133,7 +138,7 @@ func (c Cmd) textFrom(trace string, withVar bool, stDir string) string {
 	if stDir != "" {
 		ex = fmt.Sprintf("exit $(cat %s)", filepath.Join(stDir, "st."+c.ID))
 	}
-	return fmt.Sprintf("printf 'S:%%s\\n' \"%s\" >> %s; printf 'S:%%s\\n' \"%s\"; %sprintf 'E:%%s\\n' \"%s\" >> %s; %s",
+	return leads[c.Lead%len(leads)] + fmt.Sprintf("printf 'S:%%s\\n' \"%s\" >> %s; printf 'S:%%s\\n' \"%s\"; %sprintf 'E:%%s\\n' \"%s\" >> %s; %s",
 		id, trace, id, sl, id, trace, ex)
 }
 
@@ -530,6 +535,9 @@ func genCmds(rt *rapid.T, label string, min, max int) []Cmd {
 		}
 		out[i] = Cmd{ID: fmt.Sprintf("%s%d", label, i), Status: st, Shape: rapid.IntRange(0, 3).Draw(rt, label+"_shape"),
 			Sleep: rapid.IntRange(0, 3).Draw(rt, label+"_sleep") == 0}
+		if rapid.IntRange(0, 3).Draw(rt, label+"_lead") == 0 {
+			out[i].Lead = rapid.IntRange(1, 4).Draw(rt, label+"_leadkind")
+		}
 	}
 	return out
 }
